@@ -178,7 +178,7 @@ Section OptimProofs.
 
   (** opt as written in the snapshot with log_opt=True: what still holds ... *)
   Theorem opt_log_partial (O : optimiser R) p0 lower upper fixed multinom w d0 :
-    opt ll_multinom ll_plain O p0 lower upper fixed multinom true = Some w ->
+    opt_snapshot ll_multinom ll_plain O p0 lower upper fixed multinom true = Some w ->
     project_down p0 fixed = Some d0 -> positive d0 ->
     contract true (w_lo w) (w_hi w) (w_start w)
              (fun x => fst (opt_objective ll_multinom ll_plain multinom fixed true x)) (w_oracle w) ->
@@ -190,7 +190,7 @@ Section OptimProofs.
     (* ... but the vector handed back is the start *)
     w_x w = subst_fixed p0 fixed.
   Proof.
-    intros Hw Hd Hpos Hc. unfold opt in Hw.
+    intros Hw Hd Hpos Hc. unfold opt_snapshot in Hw.
     destruct (opt_gen_inv _ _ _ _ _ _ _ _ _ _ Hw) as (lo & hi & d0' & Hlo & Hhi & Hd' & Hrest).
     rewrite Hd in Hd'. inv Hd'. cbv zeta in Hrest.
     destruct Hrest as (Elo & Ehi & Est & Eor & Ef & Ex & Eev).
